@@ -500,6 +500,8 @@ class SymInt:
         return SymBytes([z3.Extract(8 * i + 7, 8 * i, e) for i in reversed(range(length))])
 
     def __format__(self, spec):
+        if spec in ('', 'd') and Engine.cur is not None:
+            return E().registry_token(self)      # decimal text, as str()
         return '<sym>'
 
     def __repr__(self):
@@ -1100,8 +1102,82 @@ class SymStr:
     def encode(self, encoding='utf-8', errors='strict'):
         return encode_str(self, encoding)
 
-    def split(self, sep=None):
-        raise Inconclusive('split on symbolic str')
+    def _is(self, c, ch):
+        """truth of: item c is the character ch (solver decision for a symbolic item)"""
+        if _isinstance(c, _str):
+            return c == ch
+        return E().branch(c == _ord(ch))
+
+    def _in(self, c, chars):
+        if _isinstance(c, _str):
+            return c in chars
+        if not chars:
+            return False
+        return E().branch(z3.Or([c == _ord(x) for x in chars]))
+
+    def find(self, sub, start=0):
+        if not (_isinstance(sub, _str) and _len(sub) == 1):
+            raise Inconclusive('str.find of a multi-character/symbolic needle in a symbolic str')
+        for i in range(_idx(start), _len(self.cp)):
+            if self._is(self.cp[i], sub):
+                return i
+        return -1
+
+    def partition(self, sep):
+        i = self.find(sep)
+        if i < 0:
+            return (self, '', '')
+        return (SymStr(self.cp[:i]), sep, SymStr(self.cp[i + 1:]))
+
+    def split(self, sep=None, maxsplit=-1):
+        if not (_isinstance(sep, _str) and _len(sep) == 1) or maxsplit != -1:
+            raise Inconclusive('split on symbolic str')
+        out, cur = [], []
+        for c in self.cp:
+            if self._is(c, sep):
+                out.append(SymStr(cur))
+                cur = []
+            else:
+                cur.append(c)
+        out.append(SymStr(cur))
+        return out
+
+    def startswith(self, prefix):
+        if not _isinstance(prefix, _str):
+            raise Inconclusive('startswith(non-literal) on symbolic str')
+        if _len(prefix) > _len(self.cp):
+            return False
+        return all(self._is(c, p) for c, p in zip(self.cp, prefix))
+
+    def endswith(self, suffix):
+        if not _isinstance(suffix, _str):
+            raise Inconclusive('endswith(non-literal) on symbolic str')
+        if _len(suffix) > _len(self.cp):
+            return False
+        if not suffix:
+            return True
+        return all(self._is(c, p) for c, p in zip(self.cp[-_len(suffix):], suffix))
+
+    def lstrip(self, chars=None):
+        chars = _WS_DEFAULT() if chars is None else chars
+        if not _isinstance(chars, _str):
+            raise Inconclusive('lstrip(non-literal) on symbolic str')
+        i = 0
+        while i < _len(self.cp) and self._in(self.cp[i], chars):
+            i += 1
+        return SymStr(self.cp[i:])
+
+    def rstrip(self, chars=None):
+        chars = _WS_DEFAULT() if chars is None else chars
+        if not _isinstance(chars, _str):
+            raise Inconclusive('rstrip(non-literal) on symbolic str')
+        j = _len(self.cp)
+        while j > 0 and self._in(self.cp[j - 1], chars):
+            j -= 1
+        return SymStr(self.cp[:j])
+
+    def strip(self, chars=None):
+        return self.lstrip(chars).rstrip(chars)
 
     def replace(self, a, b):
         if _isinstance(a, _str) and _len(a) == 1 and _isinstance(b, _str):
@@ -1790,6 +1866,8 @@ def native_contains(item, container):
 
 
 def literal_method(recv, method, args):
+    if method == 'format' and recv == '{}' and _len(args) == 1 and hasattr(args[0], 'as_symstr'):
+        return args[0].as_symstr()       # '{}'.format(x) is str(x): kept as a symbolic str
     if method == 'join' and _len(args) == 1 and not _isinstance(args[0], (_str, _bytes, _bytearray)):
         items = list(args[0])
         if not _has_proxy(items):
@@ -1841,8 +1919,41 @@ def _registry_text(self, symstr):
     return ''.join(out)
 
 
+def _WS_DEFAULT():
+    return _WS
+
+
 def _registry_int(self, symstr, base):
-    raise Inconclusive('int() of symbolic str')
+    """int() of a symbolic str: optional sign, then decimal digits (anything else: ValueError,
+    decided by the solver per character)"""
+    if base not in (None, 10):
+        raise Inconclusive('int(symbolic str, %r)' % (base,))
+    cps = list(symstr.cp)
+    neg = False
+    if cps and (symstr._is(cps[0], '-') or symstr._is(cps[0], '+')):
+        neg = symstr._is(cps[0], '-')
+        cps = cps[1:]
+    if not cps:
+        raise ValueError("invalid literal for int() with base 10")
+    if _len(cps) > 30:
+        raise Inconclusive('int() of a long symbolic str')
+    w = 4 * _len(cps) + 8
+    acc = z3.BitVecVal(0, w)
+    for c in cps:
+        if _isinstance(c, _str):
+            if c not in '0123456789':
+                raise ValueError("invalid literal for int() with base 10")
+            d = z3.BitVecVal(_int(c), w)
+        else:
+            if not self.branch(z3.And(z3.UGE(c, 0x30), z3.ULE(c, 0x39))):
+                raise ValueError("invalid literal for int() with base 10")
+            d = z3.ZeroExt(w - 21, c - 0x30) if w > 21 else z3.Extract(w - 1, 0, c - 0x30)
+        acc = acc * 10 + d
+    top = 10 ** _len(cps) - 1
+    acc = z3.simplify(acc)
+    if neg:
+        return _mk(-acc, -top, 0)
+    return _mk(acc, 0, top)
 
 
 BIT_BASE = 0xF0000      # plane-15 private use: one code point per symbolic binary digit
